@@ -285,7 +285,7 @@ def run(ctx):
          {'C18_HLEN': '3' if quick else '4', 'OUT_FILE': f_hist}, 1),
         ('export-wavelayout', 'MC_WaveLayout.tla', 'MC_WaveLayout_export.cfg', dict(env_wl, OUT_FILE=f_wl), 1),
         ('laws-dft', 'MC_DFTSem.tla', 'MC_DFTSem_laws.cfg', dict(env_dft, OUT_FILE=os.devnull), 3),
-        ('laws-ft', 'MC_DFTSem.tla', 'MC_DFTSem_laws.cfg', dict(env_ft, OUT_FILE=os.devnull), 3),
+        ('laws-ft', 'MC_DFTSem.tla', 'MC_DFTSem_laws.cfg', dict(env_ft, OUT_FILE=os.devnull), 3 if quick else 6),
         ('recipgrid-impl', 'MC_RecipGridImpl.tla', 'MC_RecipGridImpl.cfg', {'C18_HCFIX': HCFIX}, 2),
         ('laws-wavelayout', 'MC_WaveLayout.tla', 'MC_WaveLayout_laws.cfg', dict(env_wl, OUT_FILE=os.devnull), 2),
     ]
@@ -413,6 +413,8 @@ def run(ctx):
     events = {}            # key -> [event, [(tid, where, extras, conc), ...]]
     unsupported = defaultdict(int)
     replay_mismatch = {}   # event key -> True (exported expectation differs from the observation)
+    replay_match = set()   # event keys that equal an exported expectation
+    prov_cnt = defaultdict(int)
     sample_cand = []
     nrep = 0
     for t in tasks:
@@ -428,10 +430,9 @@ def run(ctx):
                 ctx.nontrivial.add(h16(o['abstract']))
             if key not in events:
                 events[key] = [ev, []]
-            if len(events[key][1]) < 4:
-                events[key][1].append((t['tid'], o['where'], o['extras'], o['conc']))
-            else:
-                events[key][1].append((t['tid'], o['where'], o['extras'], None))
+            pk = (key, Families.wkey(o['where']))
+            prov_cnt[pk] += 1          # the concretisation is kept for the first few observations of a family only
+            events[key][1].append((t['tid'], o['where'], o['extras'], o['conc'] if prov_cnt[pk] <= 3 else None))
             if o.get('expkey'):
                 o['expected'] = t['case'][o['expkey']]
             if o.get('expected') is not None:
@@ -439,6 +440,8 @@ def run(ctx):
                 got = ev.get('obs') if ev['k'] == 'tab' else (ev.get('post') if ev['k'] == 'hist' else ev.get('blocks'))
                 if ev.get('err') or got != o['expected']:
                     replay_mismatch[key] = True
+                else:
+                    replay_match.add(key)
             if len(sample_cand) < 400 and ev['k'] in ('tab', 'conv', 'lay', 'adj', 'mag') and not ev.get('err') and \
                     t['tid'] % 97 == 0 and key not in {c[0] for c in sample_cand}:
                 sample_cand.append((key, {k: v for k, v in t.items() if k not in ('case', 'behaviours')}))
@@ -498,6 +501,9 @@ def run(ctx):
         names = set(re.findall(r'<<\s*"([\w-]+)"', cl))
         if names & set(harness_clauses):
             raise MachineryError('harness-side clause rejected: %s %s' % (cl, dumps(events[k][0])[:300]))
+        if k in replay_match and k not in replay_mismatch and names <= {'table', 'hist', 'layout-blocks'}:
+            raise MachineryError('observation equal to the exported expectation rejected by Trace_FT: %s %s'
+                                 % (cl, dumps(events[k][0])[:300]))
 
     kinds_seen = set()
     for key, tinfo in sample_cand:          # literal cases that the specification accepted, one per event kind
@@ -521,6 +527,8 @@ def run(ctx):
     except Exception as e:
         ctx.drift_note('range-shape probe failed: %s' % type(e).__name__)
 
+    outside.update(outside_claim_observations())
+
     # ---- 6. verdicts ---------------------------------------------------------------------------------
     task_by_tid = {t['tid']: t for t in tasks}
     for k, cl in sorted(rejected.items()):
@@ -532,11 +540,15 @@ def run(ctx):
                       'extras': extras, 'conc': conc}
             fam.fail(where, outcome, extras, detail)
     per_sig = defaultdict(int)
-    for sig, detail in fam.signatures():
+    unlisted = {}
+    sigs = fam.signatures()
+    sigs.sort(key=lambda sd: 0 if sd[1].get('conc') is not None else 1)     # replayable details first
+    for sig, detail in sigs:
         sk = dumps(sig, sort_keys=True)
         per_sig[sk] += 1
-        if per_sig[sk] <= 3:
-            ctx.violation(sig, detail)
+        # listed (known) families are counted case by case; unlisted ones get at most 3 replay files each
+        if sk not in unlisted or not unlisted[sk] or per_sig[sk] <= 3:
+            unlisted[sk] = ctx.violation(sig, detail)
     ctx.extra['events_validated_by_tlc'] = len(keys)
     ctx.extra['events_rejected_by_tlc'] = len(rejected)
     ctx.extra['replayed_exported_cases'] = nrep
@@ -547,6 +559,37 @@ def run(ctx):
     ctx.extra['bounds'] = {'dft_export': env_dft, 'ft_export': env_ft, 'wavelayout': env_wl,
                            'history_length': 3 if quick else 4, 'back_ends': impls}
     ctx.exhaustive = True     # every exported configuration / history / layout is replayed
+
+
+def outside_claim_observations():
+    """Numbers recorded for the reader, never judged: behaviour just outside the (weaker) reading of the statement."""
+    out = {}
+    try:
+        import odl
+        if U.HAVE_PYWT:
+            adj = {}
+            for w, mode, shape, L in (('db2', 'pywt_periodic', (16,), 2), ('db2', 'periodic', (16,), 1),
+                                      ('haar', 'pywt_periodic', (9,), 2), ('db2', 'symmetric', (16,), 1)):
+                sp = U.wave_space(shape, 0.5)
+                W = odl.trafos.WaveletTransform(sp, w, nlevels=L, pad_mode=mode)
+                rs = np.random.RandomState(0)
+                x, y = sp.element(rs.randn(*shape)), W.range.element(rs.randn(W.range.size))
+                a, b = W(x).inner(y), x.inner(W.adjoint(y))
+                adj['%s/%s/n=%s/L=%d' % (w, mode, shape[0], L)] = '%.1e' % (abs(a - b) / max(abs(a), abs(b), 1e-300))
+            out['wavelet_adjoint_relative_mismatch (claimed only: pywt_periodic, size divisible by 2^L)'] = adj
+            try:
+                odl.trafos.WaveletTransform(U.wave_space((8,)), 'haar', pad_mode='pywt_per')
+                out['documented_pad_mode_name_pywt_per'] = 'accepted'
+            except Exception as e:
+                out['documented_pad_mode_name_pywt_per'] = 'raises ' + type(e).__name__ + ' (the accepted name is pywt_periodic)'
+        try:
+            odl.trafos.DiscreteFourierTransform(odl.uniform_discr([0, 0], [1, 1], (1, 4)), axes=(1,), impl='numpy')
+            out['dft_default_range_with_length_1_axis'] = 'constructed'
+        except Exception as e:
+            out['dft_default_range_with_length_1_axis'] = 'raises ' + type(e).__name__
+    except Exception as e:
+        out['error'] = type(e).__name__
+    return out
 
 
 def task_cost(t):
